@@ -154,17 +154,20 @@ func (c *CitadelClient) buildConnection() (*grpc.ClientConn, error) {
 }
 
 func (c *CitadelClient) reconnect() error {
-	if err := c.conn.Close(); err != nil {
-		return fmt.Errorf("failed to close connection: %v", err)
-	}
-
+	// Build the new connection before giving up the old one. buildConnection can fail (it reads the root cert file);
+	// closing first would then leave the client with a closed connection for good: every later request fails with
+	// "the client connection is closing" and every later reconnect stops at Close() with the same error.
 	conn, err := c.buildConnection()
 	if err != nil {
 		return err
 	}
+	old := c.conn
 	c.conn = conn
 	c.client = pb.NewIstioCertificateServiceClient(conn)
 	citadelClientLog.Info("recreated connection")
+	if err := old.Close(); err != nil {
+		return fmt.Errorf("failed to close connection: %v", err)
+	}
 	return nil
 }
 
